@@ -61,6 +61,9 @@ type host struct {
 	tickSnap  []string
 	recordRef bool
 	snapFn    func() string
+
+	pre     func(vm *otto.Otto) // run right after otto.New(), before the prelude
+	reenter func()              // run by the hreenter host function before it calls back
 }
 
 func (h *host) called() {
@@ -110,6 +113,9 @@ func errText(err error) string {
 func newVM(h *host, limit int) (*otto.Otto, error) {
 	vm := otto.New()
 	h.vm = vm
+	if h.pre != nil {
+		h.pre(vm) // entry family: install the Interrupt channel before anything is run
+	}
 	swallow := func(v otto.Value, err error) otto.Value {
 		if err != nil {
 			h.log = append(h.log, "hosterr:"+err.Error())
@@ -170,6 +176,28 @@ func newVM(h *host, limit int) (*otto.Otto, error) {
 			h.called()
 			src, _ := call.Argument(0).ToString()
 			return swallow(call.Otto.Eval(src))
+		}},
+		{"hreenter", func(call otto.FunctionCall) otto.Value {
+			// entry family: re-enter the evaluator from a host function after the
+			// case's channel action (install / replace / clear / queue) has run
+			h.called()
+			kind, _ := call.Argument(0).ToInteger()
+			if h.reenter != nil {
+				h.reenter()
+			}
+			var v otto.Value
+			var err error
+			switch kind {
+			case 0:
+				v, err = call.Otto.Call("spin", nil)
+			case 1:
+				fn, _ := call.Otto.Get("spin")
+				v, err = fn.Call(otto.UndefinedValue())
+			default:
+				ov, _ := call.Otto.Get("holder")
+				v, err = ov.Object().Call("spin")
+			}
+			return swallow(v, err)
 		}},
 		{"hrun", func(call otto.FunctionCall) otto.Value {
 			h.called()
